@@ -31,7 +31,8 @@ CLASSES = {
     "FbSetter": {"fields": {"g_published": "Ref:PyObj", "g_cnt": "Int"}},
     "Periodic": {"fields": {"g_cnt": "Int", "g_last": "Int"}},
     "ResetDict": {"fields": {"d": "Map[Str,Ref:PyObj]"}},
-    "NtSetter": {"fields": {"g_value": "Str", "g_bvalue": "Bool"}},
+    "NtStrSetter": {"fields": {"g_value": "Str"}},
+    "NtBoolSetter": {"fields": {"g_bvalue": "Bool"}},
     "BoolFn": {"fields": {}},
     MR: {
         "fields": {
@@ -39,8 +40,8 @@ CLASSES = {
             "_reset_components": f"Seq[(Ref:ResetDict,Ref:{COMP})]", "_MagicRobot__periodics": "Seq[(Ref:Periodic,Str)]",
             "watchdog": "Ref:SimpleWatchdog", "_MagicRobot__done": "Bool", "_MagicRobot__last_error_report": "Real",
             "error_report_interval": "Real", "control_loop_wait_time": "Real", "use_teleop_in_autonomous": "Bool",
-            "_automodes": "Ref:AutonomousModeSelector", "_MagicRobot__nt_put_mode": "Ref:NtSetter",
-            "_MagicRobot__nt_put_is_ds_attached": "Ref:NtSetter", "_MagicRobot__is_ds_attached": "Ref:BoolFn",
+            "_automodes": "Ref:AutonomousModeSelector", "_MagicRobot__nt_put_mode": "Ref:NtStrSetter",
+            "_MagicRobot__nt_put_is_ds_attached": "Ref:NtBoolSetter", "_MagicRobot__is_ds_attached": "Ref:BoolFn",
             "g_mode_cnt": "Int", "g_mode_last": "Int", "g_init_cnt": "Int", "g_init_last": "Int", "g_ep_cnt": "Int", "g_dp_cnt": "Int",
         },
         "alias": {"comps": "COMPS(self)", "fbs": "FBS(self)", "pers": "PERS(self)", "rsts": "RSTS(self)"},
@@ -55,6 +56,7 @@ CLASSES = {
             "W7 reset entries: existing dicts and pairwise distinct components": "forall(a, Int, forall(b, Int, implies(0 <= a and a < len(rsts), rsts[a][0] is not None and rsts[a][1] is not None and implies(a < b and b < len(rsts), not (rsts[a][1] is rsts[b][1])))))",
             "W8 helpers exist": "self.watchdog is not None and self._automodes is not None and self._MagicRobot__nt_put_mode is not None and self._MagicRobot__nt_put_is_ds_attached is not None and self._MagicRobot__is_ds_attached is not None",
             "W10 the robot's watchdog is a consistent SimpleWatchdog": "inv(self.watchdog)",
+            "W11 the loop period is at least 1 ms (NotifierDelay would refuse less)": "self.control_loop_wait_time >= 0.001",
             "W9 lengths": "len(comps) >= 0 and len(fbs) >= 0 and len(pers) >= 0 and len(rsts) >= 0",
         },
         "invariant": {},
@@ -71,7 +73,7 @@ _RAISE = {"fault counted": "g_faults == old(g_faults) + 1"}
 _USER = [f"{COMP}.attrs[*]"]          # user-visible data any callback may change
 
 G1 = {"C07.G1 with the FMS attached no user-callback exception leaves this function": "not g_fms"}
-G2 = {"C07.G2 without the FMS attached a normal return means no user callback raised (faults are loud)": "implies(not g_fms, g_faults == old(g_faults))"}
+G2 = {"C07.G2 without the FMS attached a normal return means no user callback raised (faults are loud)": "implies(not g_fms, g_faults == old(g_faults)) and g_faults >= old(g_faults)"}
 
 
 def _cb(obj, extra_mod=(), site=None, note="user callback"):
@@ -245,7 +247,7 @@ CONTRACTS = {
         "ensures": dict({
             "C06.E1 every component's on_enable() is called once, in declaration order, also when some of them raise on the FMS":
                 "forall(j, Int, forall(k, Int, implies(0 <= j and j < len(comps), enabled(comps[j][1]) and implies(comps[j][1].on_enable is not None, "
-                "comps[j][1].on_enable.g_cnt == old(comps[j][1].on_enable.g_cnt) + 1 and old(g_seq) < comps[j][1].on_enable.g_last and "
+                "comps[j][1].on_enable.g_cnt == old(comps[j][1].on_enable.g_cnt) + 1 and old(g_seq) < comps[j][1].on_enable.g_last and comps[j][1].on_enable.g_last <= g_seq and "
                 "implies(j < k and k < len(comps) and comps[k][1].on_enable is not None, comps[j][1].on_enable.g_last < comps[k][1].on_enable.g_last)))))",
             "serial monotone": "g_seq >= old(g_seq)",
         }, **G2),
@@ -265,13 +267,127 @@ CONTRACTS = {
         "ensures": dict({
             "C06.D1 every component's on_disable() is called once, in declaration order, also when some of them raise on the FMS":
                 "forall(j, Int, forall(k, Int, implies(0 <= j and j < len(comps) and comps[j][1].on_disable is not None, "
-                "comps[j][1].on_disable.g_cnt == old(comps[j][1].on_disable.g_cnt) + 1 and old(g_seq) < comps[j][1].on_disable.g_last and "
+                "comps[j][1].on_disable.g_cnt == old(comps[j][1].on_disable.g_cnt) + 1 and old(g_seq) < comps[j][1].on_disable.g_last and comps[j][1].on_disable.g_last <= g_seq and "
                 "implies(j < k and k < len(comps) and comps[k][1].on_disable is not None, comps[j][1].on_disable.g_last < comps[k][1].on_disable.g_last))))",
             "serial monotone": "g_seq >= old(g_seq)",
         }, **G2),
         "ensures_raise": G1,
     },
 }
+
+
+# ---------------------------------------------------------------- mode functions
+_LOOP_MOD = [f"{COMP}.g_exec_cnt[*]", f"{COMP}.g_exec_last[*]", f"{MR}.g_ep_cnt[*]", f"{MR}.g_dp_cnt[*]", f"{MR}.g_mode_cnt[*]", f"{MR}.g_mode_last[*]",
+             f"{MR}.g_init_cnt[*]", f"{MR}.g_init_last[*]",
+             "FbGetter.g_cnt[*]", "FbGetter.g_last[*]", "FbGetter.g_ok[*]", "FbGetter.g_value[*]", "FbSetter.g_published[*]", "FbSetter.g_cnt[*]",
+             "Periodic.g_cnt[*]", "Periodic.g_last[*]", "g_seq", "g_faults", "g_time", "g_reports", f"{MR}._MagicRobot__last_error_report[*]",
+             "EnableHook.g_on[*]", "EnableHook.g_cnt[*]", "EnableHook.g_last[*]", "DisableHook.g_cnt[*]", "DisableHook.g_last[*]",
+             "NtStrSetter.g_value[*]", "NtBoolSetter.g_bvalue[*]", "g_now", "g_warns", "g_ds_enabled", "g_ds_auto", "g_ds_test",
+             "wpilib.DSControlWord.en[*]", "wpilib.DSControlWord.auto[*]", "wpilib.DSControlWord.test[*]",
+             "NotifierDelay.delay_period[*]", "NotifierDelay._notifier[*]", "NotifierDelay._expiry_time[*]", "NotifierDelay.g_t0[*]", "NotifierDelay.g_k[*]",
+             "Handle.alarm[*]", "Handle.updates[*]", "Handle.stops[*]", "Handle.cleaned[*]",
+             "SimpleWatchdog._epochs[*]", "SimpleWatchdog._startTime[*]", "SimpleWatchdog._expirationTime[*]", "SimpleWatchdog._lastEpochsPrintTime[*]", "SimpleWatchdog.g_armed[*]"] + _USER
+
+_DELAY_OK = "delay is not None and inv(delay) and delay.g_k >= 0 and delay._notifier is not None"
+_NOFAULT = "implies(not g_fms, g_faults == old(g_faults)) and g_faults >= old(g_faults)"
+_ALL_ENABLED = "forall(j, Int, implies(0 <= j and j < len(comps), enabled(comps[j][1])))"
+_EN_ONCE = ("forall(j, Int, implies(0 <= j and j < len(comps) and comps[j][1].on_enable is not None, comps[j][1].on_enable.g_cnt == old(comps[j][1].on_enable.g_cnt) + 1 "
+            "and comps[j][1].on_enable.g_last < self.g_init_last))")
+_DIS_NONE = "forall(j, Int, implies(0 <= j and j < len(comps) and comps[j][1].on_disable is not None, comps[j][1].on_disable.g_cnt == old(comps[j][1].on_disable.g_cnt)))"
+_DIS_ONCE_AFTER = ("forall(j, Int, implies(0 <= j and j < len(comps) and comps[j][1].on_disable is not None, comps[j][1].on_disable.g_cnt == old(comps[j][1].on_disable.g_cnt) + 1 "
+                   "and self.g_init_last < comps[j][1].on_disable.g_last))")
+_DIS_ONCE_BEFORE = ("forall(j, Int, implies(0 <= j and j < len(comps) and comps[j][1].on_disable is not None, comps[j][1].on_disable.g_cnt == old(comps[j][1].on_disable.g_cnt) + 1 "
+                    "and comps[j][1].on_disable.g_last < self.g_init_last))")
+_NO_EXEC = f"forall(c, Ref_{COMP}, c.g_exec_cnt == old(c.g_exec_cnt))"
+_MODE_FIRST = "implies(delay.g_k > 0, forall(j, Int, implies(0 <= j and j < len(comps), self.g_mode_last < comps[j][1].g_exec_last)))"
+
+
+def _nt_cb(cls, field, sort):
+    return {"kind": "external", "params": {"value": sort}, "modifies": [f"self.{field}"], "ensures": {"NT entry set": f"self.{field} == value"},
+            "note": "ntcore entry setter bound in robotInit (assumed)"}
+
+
+CONTRACTS[f"{MR}.teleopPeriodic"]["site_asserts_in"] = {f"{MR}._operatorControl": {
+    "C05.T7 the teleop loop only runs its iteration while the driver station says teleop is enabled": "g_ds_enabled and not g_ds_auto and not g_ds_test"}}
+CONTRACTS[f"{MR}.disabledPeriodic"]["site_asserts_in"] = {f"{MR}._disabled": {
+    "C05.D7 the disabled loop only runs its iteration while the driver station says disabled": "not g_ds_enabled"}}
+CONTRACTS[f"{MR}.testPeriodic"]["site_asserts_in"] = {f"{MR}._test": {
+    "C05.X7 the test loop only runs its iteration while the driver station says test and enabled": "g_ds_enabled and g_ds_test"}}
+
+CONTRACTS.update({
+    "NtStrSetter.__call__": _nt_cb("NtStrSetter", "g_value", "Str"),
+    "NtBoolSetter.__call__": _nt_cb("NtBoolSetter", "g_bvalue", "Bool"),
+    "BoolFn.__call__": {"kind": "external", "params": {}, "returns": "Bool", "ensures": {}, "note": "DriverStation.isDSAttached (arbitrary input)"},
+    f"{MR}._operatorControl": {
+        "receivers": [MR], "params": {}, "raises": True, "modifies": _LOOP_MOD,
+        "loops": {0: {"inv": {
+            "C05.T1 per completed iteration teleopPeriodic and _enabled_periodic ran exactly once each (one NotifierDelay.wait() per iteration)":
+                "self.g_mode_cnt == old(self.g_mode_cnt) + delay.g_k and self.g_ep_cnt == old(self.g_ep_cnt) + delay.g_k",
+            "C05.T2 the mode's own code ran before the components in the last iteration": _MODE_FIRST,
+            "C05.T3 /robot/mode names the mode": "self._MagicRobot__nt_put_mode.g_value == 'teleop'",
+            "C06.T4 every component stays enabled while the loop runs": _ALL_ENABLED,
+            "C06.T5 on_enable of every component ran once, before teleopInit; no on_disable yet": _EN_ONCE + " and " + _DIS_NONE + " and self.g_init_cnt == old(self.g_init_cnt) + 1",
+            "delay consistent and live": _DELAY_OK, "watchdog consistent": "inv(self.watchdog) and watchdog is self.watchdog",
+            "serial monotone": "g_seq >= old(g_seq) and self.g_init_last <= g_seq",
+            "without FMS no fault so far": _NOFAULT,
+        }}},
+        "ensures": dict({
+            "C05.T1 per teleop iteration teleopPeriodic then every component's execute() (via _enabled_periodic) exactly once; one wait per iteration on a NotifierDelay of control_loop_wait_time":
+                "self.g_mode_cnt == old(self.g_mode_cnt) + delay.g_k and self.g_ep_cnt == old(self.g_ep_cnt) + delay.g_k and delay._notifier is None and " + _MODE_FIRST,
+            "C05.T3 /robot/mode was 'teleop' throughout": "self._MagicRobot__nt_put_mode.g_value == 'teleop'",
+            "C06.T6 on entering teleop every on_enable ran (once) before teleopInit; on leaving every on_disable ran (once) after everything else": _EN_ONCE + " and " + _DIS_ONCE_AFTER,
+        }, **G2),
+        "ensures_raise": G1,
+    },
+    f"{MR}._disabled": {
+        "receivers": [MR], "params": {}, "raises": True, "modifies": _LOOP_MOD,
+        "loops": {0: {"inv": {
+            "C05.D1 per completed iteration disabledPeriodic and the periodics ran exactly once each": "self.g_mode_cnt == old(self.g_mode_cnt) + delay.g_k and self.g_dp_cnt == old(self.g_dp_cnt) + delay.g_k",
+            "C05.D2 no component's execute() runs in disabled mode": _NO_EXEC + " and self.g_ep_cnt == old(self.g_ep_cnt)",
+            "C05.D3 /robot/mode names the mode": "self._MagicRobot__nt_put_mode.g_value == 'disabled'",
+            "C06.D4 on entering disabled every on_disable ran once, before disabledInit": _DIS_ONCE_BEFORE + " and self.g_init_cnt == old(self.g_init_cnt) + 1",
+            "delay consistent and live": _DELAY_OK, "watchdog consistent": "inv(self.watchdog) and watchdog is self.watchdog",
+            "serial monotone": "g_seq >= old(g_seq) and self.g_init_last <= g_seq",
+            "without FMS no fault so far": _NOFAULT,
+        }, "local_sorts": {"ds_attached": "Opt[Bool]"}}},
+        "ensures": dict({
+            "C05.D1 per disabled iteration disabledPeriodic, the feedbacks and robotPeriodic exactly once; one wait per iteration": "self.g_mode_cnt == old(self.g_mode_cnt) + delay.g_k and self.g_dp_cnt == old(self.g_dp_cnt) + delay.g_k and delay._notifier is None",
+            "C05.D2 no component's execute() runs in disabled mode": _NO_EXEC + " and self.g_ep_cnt == old(self.g_ep_cnt)",
+            "C05.D3 /robot/mode was 'disabled' throughout": "self._MagicRobot__nt_put_mode.g_value == 'disabled'",
+            "C06.D4 on entering disabled every on_disable ran once, before disabledInit": _DIS_ONCE_BEFORE,
+        }, **G2),
+        "ensures_raise": G1,
+    },
+    f"{MR}._test": {
+        "receivers": [MR], "params": {}, "raises": True, "modifies": _LOOP_MOD,
+        "loops": {0: {"inv": {
+            "C05.X1 per completed iteration testPeriodic and the periodics ran exactly once each": "self.g_mode_cnt == old(self.g_mode_cnt) + delay.g_k and self.g_dp_cnt == old(self.g_dp_cnt) + delay.g_k",
+            "C05.X2 no component's execute() runs in test mode": _NO_EXEC + " and self.g_ep_cnt == old(self.g_ep_cnt)",
+            "C05.X3 /robot/mode names the mode": "self._MagicRobot__nt_put_mode.g_value == 'test'",
+            "delay consistent and live": _DELAY_OK, "watchdog consistent": "inv(self.watchdog) and watchdog is self.watchdog",
+            "serial monotone": "g_seq >= old(g_seq)", "without FMS no fault so far": _NOFAULT,
+        }}},
+        "ensures": dict({
+            "C05.X1 per test iteration testPeriodic, the feedbacks and robotPeriodic exactly once; one wait per iteration": "self.g_mode_cnt == old(self.g_mode_cnt) + delay.g_k and self.g_dp_cnt == old(self.g_dp_cnt) + delay.g_k and delay._notifier is None",
+            "C05.X2 no component's execute() runs in test mode": _NO_EXEC + " and self.g_ep_cnt == old(self.g_ep_cnt)",
+            "C05.X3 /robot/mode was 'test' throughout": "self._MagicRobot__nt_put_mode.g_value == 'test'",
+        }, **G2),
+        "ensures_raise": G1,
+    },
+    f"{MR}.autonomous": {
+        "receivers": [MR], "params": {}, "raises": True,
+        "requires": {"the offered autonomous modes are idle when the period starts (the previous period was closed)": "forall(m, Ref_AutoMode, implies(m is g_choice or exists_mode(self._automodes, m), m.g_state == 0))"},
+        "modifies": _LOOP_MOD + ["AutonomousModeSelector.active_mode[*]", "AutonomousModeSelector.g_chosen[*]", "AutonomousModeSelector.g_iters[*]", "IterFn.g_cnt[*]", "IterFn.g_last[*]", "IterFn.robot[*]", "IterFn.kind[*]",
+                                 "ExcHandler.robot[*]", "ExcHandler.kind[*]", "wpilib.Timer.g_last[*]",
+                                 "AutoMode.g_state[*]", "AutoMode.g_en_cnt[*]", "AutoMode.g_it_cnt[*]", "AutoMode.g_dis_cnt[*]", "AutoMode.g_last_t[*]", "AutoMode.g_last[*]"],
+        "ensures": dict({
+            "C05.A4 /robot/mode was 'auto' throughout": "self._MagicRobot__nt_put_mode.g_value == 'auto'",
+            "C06.A5 on entering autonomous every on_enable ran (once) before autonomousInit; on leaving every on_disable ran (once) after it": _EN_ONCE + " and " + _DIS_ONCE_AFTER,
+            "C14.A6 the selected mode is the dashboard string's mode if it names one, else the chooser selection": "self._automodes.g_chosen is (self._automodes.modes[unwrap(g_dash)] if (g_dash is not None and has(self._automodes.modes, unwrap(g_dash))) else g_choice)",
+        }, **G2),
+        "ensures_raise": G1,
+    },
+})
 
 DYN_GETATTR = {"__dict__.update": "robot.dict_update"}
 NAMES = {"NotifierDelay": ("dotted", "NotifierDelay"), "SimpleWatchdog": ("dotted", "SimpleWatchdog")}
